@@ -23,7 +23,7 @@ def known_empty_graph(case, failing):
 def run(ctx):
     quick = ctx["tier"] == "quick"
     oracle = {"accepts", "length", "dense", "refine", "again", "status", "perm", "mono", "inverse", "nodes", "full", "iso", "big"}
-    corr = {"refuses", "combined", "ranks", "inv", "pg"}
+    corr = {"refuses", "combined", "ranks", "inv", "pg", "bigagree"}
     rs = []
     rs.append(codec.run_simple("C17", ctx, "llp", ["--mode", "comb", "--count", "1500" if quick else "30000", "--maxn", "40"],
                                oracle, corr, name="llpcomb", seed_offset=170))
@@ -37,7 +37,11 @@ def run(ctx):
                  "fractional costs, written to a work directory and combined in pools of 1..16 threads, plus a malformed "
                  "stream (empty directory, zero nodes, length mismatch, label out of range, missing cost, foreign files); "
                  "llpranks/llpinv: label vectors (not necessarily node ids) and permutations of 0..160 (a few of 2000..5000) "
-                 "elements, plus invert_permutation / labels_to_ranks on 99 999 .. 250 003 elements (around the minimum task length of the parallel loops) judged by linear scans in the harness (unproved probe, aspect big); llprun: real LLP runs on symmetric loopless graphs (path, cycle, clique, star, disjoint/chained "
+                 "elements, plus invert_permutation / labels_to_ranks on 99 999 .. 250 003 elements (around the minimum task length "
+                 "of the parallel loops): inputs and outputs are judged in the driver by the extracted n log n checkers "
+                 "big_check_inverse / big_check_ranks, proved to decide what check_perm, check_inverse and check_monotone "
+                 "decide (C17_big_inverse_spec, C17_big_ranks_spec; aspect big), and cross-checked against the verdict of "
+                 "linear scans in the harness (aspect bigagree); llprun: real LLP runs on symmetric loopless graphs (path, cycle, clique, star, disjoint/chained "
                  "cliques, empty, grid, sparse, dense, two parts) of 1..240 nodes x 1..5 gammas x seeds x node/arc "
                  "granularities x 5 stopping predicates x identity/murmur update order x both entry points x pools 1..16, "
                  "in a watched child process; distinct = different case line")
